@@ -810,6 +810,12 @@ impl CanonicalizeContext {
 					// people tend to set them in a non-italic font and software makes that 'mtext'
 					CanonicalizeContext::make_roman_numeral(mathml);
 				}
+				if (first_char == '-' || first_char == '\u{2212}') && text[first_char.len_utf8()..].trim().is_empty() {
+					// only a sign: it is an operator, not a number (splitting it off would leave an empty mn behind)
+					set_mathml_name(mathml, "mo");
+					mathml.set_text("-");
+					return Some(mathml);
+				}
 				if first_char == '-' || first_char == '\u{2212}' {
 					let doc = mathml.document();
 					let mo = create_mathml_element(&doc, "mo");
